@@ -4,6 +4,6 @@ CONSTANTS
   MaxGen = 2
   MaxBatch = 3
 VIEW View
-INVARIANTS WellFormed AliveIffIssuedNotRemoved AliveSetIsPoolAliveSet NoSharedId ZeroNeverAlive CountIsCreationsMinusRemovals
-PROPERTIES FreshHandles RecycledFirst
+INVARIANTS WellFormed AliveIffIssuedNotRemoved AliveSetIsPoolAliveSet NoSharedId ZeroNeverAlive CountIsCreationsMinusRemovals AbsIndInv
+PROPERTIES StepsArePoolIndSteps FreshHandles RecycledFirst
 CHECK_DEADLOCK FALSE
